@@ -164,6 +164,7 @@ class GOpts(object):
         self.loopelse = False      # start with nested loops whose else clauses break / continue the enclosing loop
         self.loopmut = False       # start with: loop { if-without-else / inner loop { x = <other type> } ; read x }
         self.nested = True
+        self.sibling = False       # local functions that call OTHER local functions of the same scope (see Gen.sibdef)
         self.max_stmts = 12
         self.__dict__.update(kw)
 
@@ -347,6 +348,8 @@ class Gen(object):
             kinds += ['def'] * 2 + ['condef'] * 2
         if self.funs and not infun:
             kinds += ['lcall'] * 3 + ['lcall2'] * 2
+        if self.o.nested and not infun and depth == 0 and self.nsib < 3 and (self.funs or self.nfun < 2):
+            kinds += ['sibdef'] * (6 if self.o.sibling else 1)
         if self.o.untyped:
             kinds += ['aug'] * 2
             if self.funs and not infun:
@@ -476,6 +479,8 @@ class Gen(object):
             return env
         if k == 'condef':
             return self.condef(ind, env)
+        if k == 'sibdef':
+            return self.sibdef(ind, env)
         if k == 'loopmut':
             return self.loopmut(ind, env)
         if k == 'loopelse':
@@ -631,6 +636,78 @@ class Gen(object):
         self.emit(ind, '(%s, %s)' % (x, y))
         env[x] = set(used)
         env[y] = set(used)
+        return env
+
+    def sibdef(self, ind, env):
+        """A local function h whose body CALLS another local function g of the same scope -- directly or from a
+        function nested in h -- and mentions only a random (often empty) subset of the variables g captures: the
+        types of the other captured variables reach g only through the entry state of h.  g is an existing local
+        function (possibly itself such an intermediary: chains) or a new one that is defined right AFTER h
+        (forward reference, legal as long as h runs later).  Then: h(), a captured variable re-bound with another
+        type, h() again, with direct calls of g in between on some programs."""
+        r = self.r
+        env = dict(env)
+        self.nsib += 1
+        forward = not self.funs or (self.nfun < 2 and r.random() < 0.25)
+        callee_lines = []
+        if forward:
+            start = len(self.lines)
+            self.force = ['def']
+            env = self.stmt(ind, env, 0, False)
+            g = 'g%d' % self.nfun
+            callee_lines = self.lines[start:]
+            del self.lines[start:]
+            if r.random() < 0.5:
+                # (the usual order after all: h after g)
+                self.lines += callee_lines
+                callee_lines = []
+        else:
+            g = r.choice(sorted(self.funs))
+        npar, rebinds = self.funs[g]
+        self.nfun += 1
+        h = 'g%d' % self.nfun
+        outer = sorted(self.defined_outer & set(VARS + PARAMS))
+        mention = [v for v in outer if r.random() < 0.2] if r.random() < 0.5 else []
+
+        def atom():
+            pool = mention + ['0', "'s'", '2.0', 'True']
+            return r.choice(pool)
+
+        arg = atom() if npar else ''
+        self.emit(ind, 'def %s():' % h)
+        for v in mention:
+            if r.random() < 0.6:
+                self.emit(ind + 1, 'u = %s' % r.choice(['%s', '(%s, 0)', 'tostr(%s)', 'ident(%s)']) % v)
+        if r.random() < 0.35:
+            self.nfun2 = getattr(self, 'nfun2', 0) + 1
+            k = 'k%d' % self.nfun2
+            self.emit(ind + 1, 'def %s():' % k)
+            self.emit(ind + 2, 'return %s(%s)' % (g, arg))
+            self.emit(ind + 1, r.choice(['return %s()', 'v = %s()\n' + '    ' * (ind + 1) + 'return (v, 1)']) % k)
+        else:
+            self.emit(ind + 1, r.choice(['return %s(%s)', 'v = %s(%s)\n' + '    ' * (ind + 1) + 'return (v, 1)']) % (g, arg))
+        self.lines += callee_lines
+        self.funs[h] = (0, list(rebinds))
+        env[h] = set()
+        vs = sorted(self.defined_outer & set(VARS))
+        for i in range(r.choice([2, 2, 3])):
+            c = r.random()
+            callee, a = (h, '') if c < 0.7 else (g, self.expr(env, 1)[0] if npar else '')
+            if r.random() < 0.5:
+                self.emit(ind, '%s(%s)' % (callee, a))
+            else:
+                v = r.choice(VARS)
+                self.emit(ind, '%s = %s(%s)' % (v, callee, a))
+                env[v] = {typing.Any}
+            for nl in rebinds:
+                env[nl] = {typing.Any}
+            v = r.choice(vs)
+            e, t = self.expr(env)
+            self.emit(ind, '%s = %s' % (v, e))
+            env[v] = t
+        self.emit(ind, '%s()' % h)
+        for nl in rebinds:
+            env[nl] = {typing.Any}
         return env
 
     def emit_def(self, ind, g, npar, rebinds, pname):
@@ -905,6 +982,7 @@ class Gen(object):
         if self.o.shift:
             return self.shift_function()
         self.funs = {}
+        self.nsib = 0
         self.defined_outer = set(PARAMS)
         self.emit(0, 'def f(a, b, c):')
         env = dict(self.env0)
@@ -922,13 +1000,19 @@ class Gen(object):
             env = self.stmt(1, env, 0, False)
         if self.o.nested and self.r.random() < 0.8:
             # a local function, called right away and again later, in most programs of the nested streams
-            if self.r.random() < 0.4:
+            if self.o.sibling and self.r.random() < 0.3:
+                self.force = ['sibdef']
+                env = self.stmt(1, env, 0, False)
+            elif self.r.random() < 0.4:
                 self.force = ['condef']
                 env = self.stmt(1, env, 0, False)
             else:
                 self.force = ['def', 'lcall']
                 env = self.stmt(1, env, 0, False)
                 env = self.stmt(1, env, 0, False)
+        if self.o.sibling and self.nsib == 0:
+            self.force = ['sibdef']
+            env = self.stmt(1, env, 0, False)
         env = self.block(1, env, 0, False, minlen=2)
         rets = [n for n, s in sorted(env.items()) if s and n in VARS + PARAMS]
         self.emit(1, 'return (%s,)' % ', '.join(self.r.sample(rets, min(len(rets), 3))))
@@ -1402,9 +1486,17 @@ def analyze(prog, resolver):
     orig_visit = base.visit_node
     visits = [0]
 
+    owner_of_graph = {id(g): f for f, g in graphs.items()}
+
     def init(self, *a, **kw):
         orig_init(self, *a, **kw)
         analyzers.append(self)
+        # which function this Analyzer belongs to, and the CLOSURE_TYPES recorded for it so far (the annotation,
+        # not the dictionary the Analyzer was handed): input of the closure certificate (c19_export.closure_case)
+        f = owner_of_graph.get(id(self.graph))
+        self._c19_fn = f if isinstance(f, ast.FunctionDef) else None
+        seen = anno.getanno(f, anno.Static.CLOSURE_TYPES, None) if self._c19_fn is not None else None
+        self._c19_seen = {str(k): set(v) for k, v in (seen or {}).items()}
 
     created = []
     last_new = {}
@@ -1505,6 +1597,8 @@ SIDE = 'c19-local-function-side-effects-not-applied'
 ALIAS = 'c19-closure-types-miss-calls-through-alias'
 STAR = 'c19-starred-unpacking-typed-by-position'
 NLJOIN = 'c19-nonlocal-entry-type-not-seeded'
+LATE = 'c19-closure-types-arrive-after-callee-analysed'
+FWD = 'c19-closure-types-miss-forward-referenced-callee'
 
 
 def rebinds_name(prog, g, name):
@@ -1544,6 +1638,70 @@ def escapes(prog, g):
                for n in prog.nodes)
 
 
+def _inside(prog, f, g):
+    """function f is g or nested in g"""
+    while f is not None:
+        if f is g:
+            return True
+        f = prog.parent_fun.get(id(f))
+    return False
+
+
+def _references(prog, g):
+    """(function containing the reference) for every Load of the name of local function g that denotes g's own
+    scope entry (same owner as the def)"""
+    own = prog.owner(prog.parent_fun[id(g)], g.name)
+    out = []
+    for i, n in enumerate(prog.nodes):
+        if isinstance(n, ast.Name) and n.id == g.name and isinstance(n.ctx, ast.Load):
+            h = prog.fun_of(i)
+            if h is not None and prog.owner(h, g.name) == own:
+                out.append(h)
+    return out
+
+
+def late_called(prog, g):
+    """local function g is referenced from a local function that FunctionVisitor analyses after g and that is
+    not part of g: a function whose def starts after the end of g's def"""
+    return any(id(h) in prog.parent_fun and not _inside(prog, h, g) and h.lineno > g.end_lineno
+               for h in _references(prog, g))
+
+
+def forward_referenced(prog, g):
+    """local function g is referenced from a local function whose def statement precedes g's def (and that does
+    not contain g): the def of g does not reach that reference along the CFG"""
+    return any(id(h) in prog.parent_fun and not _inside(prog, g, h) and not _inside(prog, h, g) and h.lineno < g.lineno
+               for h in _references(prog, g))
+
+
+def closure_order_cause(prog, an, r, name, v, _visited=None):
+    """A captured variable `name` observed with value v inside local function r (a read there, or r's own closure
+    types): walks from r outwards through the local functions that capture the name as well (they hand their
+    entry state down), and from each of them to the local functions that call it (their entry state is what the
+    call site records).  FWD: one of them is called from a function defined before it (that call is no call
+    site for the analysis).  LATE: one of them is called from a function analysed after it AND its final closure
+    types do cover v -- the type was recorded, but only after the function's body (and so every call site in
+    it) had been analysed."""
+    visited = _visited if _visited is not None else set()
+    g = r
+    while g is not None and id(g) in prog.parent_fun:
+        if name in prog.locals_of[id(g)] or id(g) in visited:
+            return None
+        visited.add(id(g))
+        if forward_referenced(prog, g):
+            return FWD
+        rep = an.closure.get(prog.num[id(g)], {}).get(name)
+        if rep is not None and covered(v, rep) and late_called(prog, g):
+            return LATE
+        for h in _references(prog, g):
+            if id(h) in prog.parent_fun and not _inside(prog, h, g):
+                c = closure_order_cause(prog, an, h, name, v, visited)
+                if c:
+                    return c
+        g = prog.parent_fun.get(id(g))
+    return None
+
+
 def _depth(prog, f):
     d = 0
     while f is not None:
@@ -1554,7 +1712,7 @@ def _depth(prog, f):
 
 def judge(prog, an, runs):
     """The property text on the recorded events: every reported set covers the run-time value.
-    -> list of failures (dicts), each with f['cause'] in (UNTYPED, SIDE, None); None = unexplained.
+    -> list of failures (dicts), each with f['cause'] a known-finding id or None = unexplained.
 
     Classifiers of the known findings (narrow, decided per failing observation, in execution order):
     UNTYPED: the offending value was bound by a construct for which the inferrer recorded no type for
@@ -1573,6 +1731,9 @@ def judge(prog, an, runs):
     ALIAS: a captured variable is read inside a local function (or listed in its closure types) whose
       function value escapes (h = g, argument, return value): closure types are collected only at
       statements that read the def name, a later call through the alias is not a call site.
+    FWD / LATE: see closure_order_cause (call sites the callee's analysis never saw: a caller defined before
+      the callee / analysed after it).  Neither explains closure types of a function that is only called from
+      functions analysed before it, nor (LATE) a value the final closure types do not cover.
     Propagation: an expression / assignment target whose reported set is wrong is explained when a
       name read inside the same statement is explained; a binding that stored such a value is
       'tainted' and explains later reads of that binding in the same run."""
@@ -1619,6 +1780,10 @@ def judge(prog, an, runs):
                             and escapes(prog, prog.fun_of(k)):
                         # a captured variable read inside a local function whose value escapes
                         cause = ALIAS
+                    elif wf is not None and prog.fun_of(k) is not None and (wf is not prog.fun_of(k) or wact != ev[4]) \
+                            and not isinstance(wn, ast.FunctionDef):
+                        # the value arrived through the closure: call sites the callee's analysis never saw
+                        cause = closure_order_cause(prog, an, prog.fun_of(k), n.id, v)
                     if cause:
                         stmt_cause[st] = cause
                 elif not is_read:
@@ -1656,6 +1821,8 @@ def judge(prog, an, runs):
                         cause = SIDE
                     elif wf is not prog.nodes[fk] and escapes(prog, prog.nodes[fk]):
                         cause = ALIAS
+                    elif not isinstance(wn, ast.FunctionDef):
+                        cause = closure_order_cause(prog, an, prog.nodes[fk], name, v)
                 key = ('C', fk, name, tname(typeof(v)), cause)
                 if key in seen:
                     continue
